@@ -340,7 +340,14 @@ enum Case {
   /// Key generation: key type / algorithm pair (see `GEN_KINDS`), document type (0 core, 1 iota), scope
   /// (0 = VerificationMethod, 1..=5 relationships), explicit fragment?, number of methods generated one after the other.
   Generate { kind: u8, doc: u8, scope: u8, fragment: bool, count: u8 },
+  /// A json-proof-token JWK converted with `Jwk::try_from`. `declared`: the kty the json-proof-token key declares
+  /// (index into KTY); `shape` 0: crv+x+y (its EC-shaped parameter variant), 1: crv+x (its OKP-shaped variant);
+  /// `crv`: index into EXT_CURVES; `private`: with `d`; `route` 0: deserialised by json-proof-token from JSON,
+  /// 1: that key's own `to_public()`, 2: built with json-proof-token's constructors (declared is ignored), 3: the
+  /// constructors' key through `to_public()`.
+  Ext { declared: u8, shape: u8, crv: u8, private: bool, route: u8 },
 }
+const EXT_CURVES: [&str; 6] = ["P-256", "Ed25519", "X25519", "secp256k1", "BLS12381G1", "BLS12381G2"];
 
 const VIAS: [&str; 6] =
   ["from_json", "from_json_value", "from_json_slice", "JwkSet::from_json", "VerificationMethod::from_json", "DIDJwk::parse+jwk"];
@@ -1345,6 +1352,62 @@ fn judge(case: &Case) -> Verdict {
         }
       }
     }
+    &Case::Ext { declared, shape, crv, private, route } => {
+      use jsonprooftoken::jwk::alg_parameters::{JwkAlgorithmParameters, JwkEllipticCurveKeyParameters, JwkOctetKeyPairParameters};
+      use jsonprooftoken::jwk::curves::EllipticCurveTypes as C;
+      use jsonprooftoken::jwk::key::Jwk as JwkExt;
+      const ENTRY: &str = "Jwk::try_from(jsonprooftoken::Jwk)";
+      let crv_name = EXT_CURVES[crv as usize % EXT_CURVES.len()];
+      let ext: Option<JwkExt> = match route {
+        0 | 1 => {
+          let mut m = vec![format!("\"kty\":\"{}\"", KTY[declared as usize % 4]), format!("\"crv\":\"{crv_name}\""), "\"x\":\"BwcHBwcHBwcHBwcHBwcHBwcHBwcHBwcHBwcHBwcHBwc\"".to_string()];
+          if shape == 0 {
+            m.push("\"y\":\"CQkJCQkJCQkJCQkJCQkJCQkJCQkJCQkJCQkJCQkJCQk\"".to_string());
+          }
+          if private {
+            m.push("\"d\":\"BQUFBQUFBQUFBQUFBQUFBQUFBQUFBQUFBQUFBQUFBQU\"".to_string());
+          }
+          serde_json::from_str::<JwkExt>(&format!("{{{}}}", m.join(","))).ok()
+        }
+        _ => {
+          let c = [C::P256, C::Ed25519, C::X25519, C::Secp256K1, C::BLS12381G1, C::BLS12381G2][crv as usize % 6].clone();
+          let (x, y, sk) = ([7u8; 32], [9u8; 32], [5u8; 32]);
+          let params = if shape == 0 {
+            JwkAlgorithmParameters::EllipticCurve(JwkEllipticCurveKeyParameters::new(c, &x, &y, if private { Some(&sk) } else { None }))
+          } else {
+            JwkAlgorithmParameters::OctetKeyPair(JwkOctetKeyPairParameters::new(c, &x[..], if private { Some(&sk[..]) } else { None }))
+          };
+          Some(JwkExt::from_key_params(params))
+        }
+      };
+      let ext = match (ext, route) {
+        (Some(k), 1 | 3) => k.to_public(),
+        (k, _) => k,
+      };
+      let Some(ext) = ext else {
+        v.outcome = "ext:not-a-json-proof-token-key".into();
+        return v;
+      };
+      v.nontrivial = true;
+      match guard(|| Jwk::try_from(ext.clone())) {
+        Err(pn) => v.v(format!("{ENTRY}|{}", pn.key()), pn.msg),
+        Ok(Err(_)) => v.outcome = "ext:conversion-refused".into(),
+        Ok(Ok(j)) => {
+          // however the JWK was obtained: the declared key type is the family of the parameters it carries
+          if let Err(why) = coherent(&j, None) {
+            v.v(format!("{ENTRY}|accepted|kty-differs-from-params-family"), format!("{why}; json-proof-token key: {}", serde_json::to_string(&ext).unwrap_or_default()));
+          } else {
+            // and the key survives its own JSON form unchanged
+            match guard(|| j.to_json().ok().and_then(|t| Jwk::from_json(&t).ok())) {
+              Ok(Some(back)) if back == j => {}
+              Ok(other) => v.v(format!("{ENTRY}|accepted|own-json-does-not-read-back-equal"), clip(&format!("{other:?}"))),
+              Err(pn) => v.v(format!("{ENTRY}|{}", pn.key()), pn.msg),
+            }
+          }
+          v.outcome = format!("ext:converted:{}", KTY[type_index(j.kty())]);
+        }
+      }
+    }
     &Case::Generate { kind, doc, scope, fragment, count } => {
       v.nontrivial = true;
       let storage: Storage<JwkMemStore, KeyIdMemstore> = Storage::new(JwkMemStore::new(), KeyIdMemstore::new());
@@ -1718,6 +1781,21 @@ fn generate(ctx: &Ctx) {
   ctx.add_transitions(h.len() as u64);
   ctx.add_traces(h.len() as u64);
   ctx.part("generate", json!({"cases": h.len(), "key_type_alg_pairs": GEN_KINDS}));
+
+  // json-proof-token keys converted into the library's Jwk
+  let mut x: Vec<Case> = Vec::new();
+  for route in 0..4u8 {
+    for declared in 0..(if route < 2 { 4u8 } else { 1 }) {
+      for shape in 0..2u8 {
+        for crv in 0..EXT_CURVES.len() as u8 {
+          for private in [false, true] {
+            x.push(Case::Ext { declared, shape, crv, private, route });
+          }
+        }
+      }
+    }
+  }
+  run_part(ctx, "json-proof-token conversions", &x, json!({"cases": x.len(), "routes": ["from JSON", "from JSON + to_public", "constructors", "constructors + to_public"], "declared_kty": KTY, "shapes": ["crv+x+y", "crv+x"], "curves": EXT_CURVES}));
 
   // vacuity guards of the oracles themselves
   ctx.require(PRIVATE_ARRIVED.load(Ordering::Relaxed) > 1000, "vacuous: (almost) no key kept the private members it was given");
